@@ -162,92 +162,67 @@ theorem sim (r : Src) : PA r ∧ PB r := by
 
 
 
-/-- the column `file.Position` computes for a prefix `p`, when the column at its start was `c` -/
-def colLF (p : Src) (c : Nat) : Nat :=
-  match lastIndexLF p with
-  | some j => p.length - j
-  | none => c + p.length
+/-- what `file.Position` makes of its loop result, for a prefix of length `n` -/
+def finF (res : Nat × Int) (n : Nat) : Nat × Nat := (res.1 + 1, ((n : Int) - res.2).toNat)
 
-theorem lastIndexLF_lt (p : Src) (j : Nat) (h : lastIndexLF p = some j) : j < p.length := by
-  induction p generalizing j with
-  | nil => simp [lastIndexLF] at h
-  | cons b r ih =>
-    simp only [lastIndexLF] at h
-    cases hr : lastIndexLF r with
-    | some k => rw [hr] at h; simp at h; have := ih k hr; simp; omega
-    | none => rw [hr] at h; simp at h; simp; omega
-
-theorem colLF_cons (b : Nat) (p : Src) (c : Nat) :
-    colLF (b :: p) c = match lastIndexLF p with
-      | some _ => colLF p c
-      | none => if b = 10 then p.length + 1 else c + (p.length + 1) := by
-  simp only [colLF, lastIndexLF]
-  cases hr : lastIndexLF p with
-  | some k => simp
-  | none => by_cases hb : b = 10 <;> simp [hb]
-
-theorem isLSPS_ne (b : Nat) (r : Src) (h : b ≠ 0xE2) : isLSPS b r = false := by
-  unfold isLSPS
-  split <;> simp [h]
-
-theorem clean_crlf (r : Src) : Spec.clean (13 :: 10 :: r) = Spec.clean r := by
-  simp [Spec.clean, isLSPS_ne 10 r (by decide)]
-
-theorem clean_other (b : Nat) (r : Src) (h13 : b ≠ 13) (hc : Spec.clean (b :: r) = true) :
-    isLSPS b r = false ∧ Spec.clean r = true := by
-  simp only [Spec.clean, h13, if_false] at hc
-  cases hl : isLSPS b r <;> simp_all
-
-theorem walk_clean (n : Nat) : ∀ (p : Src), p.length ≤ n → Spec.clean p = true → ∀ l c,
-    Spec.walk p 0 l c = (l + countLF p, colLF p c) := by
-  induction n with
-  | zero =>
-    intro p hp _ l c
-    have : p = [] := by cases p <;> simp_all
+/-- `file.Position`'s loop and the §7.3 walk move in lock step (same skip counter, same line, same column) -/
+theorem fp_sim (r : Src) : ∀ (i line : Nat) (last : Int) (skip : Nat), skip ≤ r.length → -1 ≤ last →
+    last < (i : Int) + skip → (skip > 0 → last = (i : Int) + skip - 1) →
+    finF (fpLoop r i line last skip) (i + r.length) = Spec.walk r skip (line + 1) (colAt (i + skip) last) := by
+  induction r with
+  | nil =>
+    intro i line last skip hs h1 h2 h3
+    have : skip = 0 := by simpa using hs
     subst this
-    simp [Spec.walk, countLF, colLF, lastIndexLF]
-  | succ n ih =>
-    intro p hp hc l c
-    cases p with
-    | nil => simp [Spec.walk, countLF, colLF, lastIndexLF]
-    | cons b r =>
-      have hr : r.length ≤ n := by simpa using hp
+    simp only [fpLoop, finF, Spec.walk, colAt, List.length_nil, Nat.add_zero]
+    congr 1
+    split <;> omega
+  | cons b r ih =>
+    intro i line last skip hs h1 h2 h3
+    simp only [List.length_cons]
+    rw [show i + (r.length + 1) = i + 1 + r.length by omega]
+    cases skip with
+    | succ s =>
+      simp only [fpLoop, walk_skip]
+      have := ih (i + 1) line last s (by simpa using hs) h1 (by omega) (by intro hs0; have := h3 (by omega); omega)
+      rw [this, show i + 1 + s = i + (s + 1) by omega]
+    | zero =>
       by_cases h13 : b = 13
       · subst h13
-        cases r with
-        | nil => simp [Spec.clean] at hc
-        | cons b2 r2 =>
-          by_cases h10 : b2 = 10
-          · subst h10
-            rw [clean_crlf] at hc
-            have hr2 : r2.length ≤ n := by simp only [List.length_cons] at hr; omega
-            have := ih r2 hr2 hc (l + 1) 1
-            rw [walk_lts 13 (10 :: r2) l c 1 (by simp [Spec.ltsLen]), walk_skip, this]
-            simp only [countLF, colLF_cons]
-            simp only [colLF, lastIndexLF]
-            cases hj : lastIndexLF r2 with
-            | some k => simp; omega
-            | none => simp; exact ⟨by omega, Nat.add_comm _ _⟩
-          · simp [Spec.clean, h10] at hc
-      · obtain ⟨hls, hcr⟩ := clean_other b r h13 hc
-        by_cases h10 : b = 10
+        simp only [fpLoop, if_true]
+        by_cases hh : r.head? = some 10
+        · have hlen : 1 ≤ r.length := by cases r <;> simp_all
+          have := ih (i + 1) (line + 1) ((i : Int) + 1) 1 hlen (by omega) (by omega) (by omega)
+          simp only [hh, if_true]
+          rw [this, walk_lts 13 r _ _ 1 (by rw [ltsLen_cr]; simp [hh])]
+          congr 1
+          simp only [colAt]; split <;> omega
+        · have := ih (i + 1) (line + 1) (i : Int) 0 (by omega) (by omega) (by omega) (by omega)
+          simp only [hh, if_false]
+          rw [this, walk_lts 13 r _ _ 0 (by rw [ltsLen_cr]; simp [hh])]
+          congr 1
+          simp only [colAt]; split <;> omega
+      · by_cases h10 : b = 10
         · subst h10
-          have := ih r hr hcr (l + 1) 1
-          rw [walk_lts 10 r l c 0 (by simp [Spec.ltsLen]), this]
-          simp only [countLF, colLF_cons]
-          simp only [colLF]
-          cases hj : lastIndexLF r with
-          | some k => simp; omega
-          | none => simp; omega
-        · have hl := ltsLen_other b r h10 h13
-          simp only [hls, Bool.false_eq_true, if_false] at hl
-          have := ih r hr hcr l (c + 1)
-          rw [walk_plain b r l c hl, this]
-          simp only [countLF, colLF_cons, h10, if_false]
-          simp only [colLF]
-          cases hj : lastIndexLF r with
-          | some k => simp
-          | none => simp; omega
-
+          have := ih (i + 1) (line + 1) (i : Int) 0 (by omega) (by omega) (by omega) (by omega)
+          simp only [fpLoop, h13, if_false, if_true]
+          rw [this, walk_lts 10 r _ _ 0 (by simp [Spec.ltsLen])]
+          congr 1
+          simp only [colAt]; split <;> omega
+        · simp only [fpLoop, h13, h10, if_false]
+          have hl := ltsLen_other b r h10 h13
+          by_cases hls : isLSPS b r = true
+          · have hlen := isLSPS_len b r hls
+            have := ih (i + 1) (line + 1) ((i : Int) + 2) 2 hlen (by omega) (by omega) (by omega)
+            simp only [hls, if_true] at hl ⊢
+            rw [this, walk_lts b r _ _ 2 hl]
+            congr 1
+            simp only [colAt]; split <;> omega
+          · have hls' : isLSPS b r = false := by simpa using hls
+            have := ih (i + 1) line last 0 (by omega) h1 (by omega) (by omega)
+            simp only [hls', Bool.false_eq_true, if_false] at hl ⊢
+            rw [this, walk_plain b r _ _ hl]
+            congr 1
+            simp only [colAt]; split <;> omega
 
 end OttoVerif.C19.Thm
